@@ -74,6 +74,14 @@ Proof.
       * apply IH. split; [exact Ha|]. split; [exact Hb|]. intros y Hy. apply Hd. right. exact Hy.
 Qed.
 
+Lemma check_code_self : forall c o, (c < 4294967296)%N ->
+  check_code (Some c) ((key_type, JNum (Z.of_N c)) :: o) = None.
+Proof.
+  intros c o Hc. unfold check_code. cbn [jlookup]. rewrite String.eqb_refl.
+  rewrite conv_in_range; [rewrite Z.eqb_refl; reflexivity|].
+  unfold in_range. apply andb_true_intro. split; [apply Z.leb_le|apply Z.ltb_lt]; lia.
+Qed.
+
 Lemma skeys_struct : forall ptr code fs, skeys (SStruct ptr code fs) = code_keys code ++ flat_keys fs.
 Proof.
   intros ptr code fs. cbn [skeys]. f_equal. unfold flat_keys.
@@ -424,14 +432,16 @@ Proof.
       - destruct v; try discriminate. apply Nat.eqb_eq in H. eauto. }
     destruct Hv as (b & Hn & ->). subst n.
     destruct code as [c|].
-    + apply andb_prop in Hwf. destruct Hwf as [_ Hk]. apply negb_true_iff in Hk.
-      destruct ptr; (eexists; split; [reflexivity|]); cbn [jlookup bind]; rewrite Hk, String.eqb_refl;
-        rewrite decode_encode_hex; cbn [bind]; rewrite fit_length; reflexivity.
+    + apply andb_prop in Hwf. destruct Hwf as [Hc Hk]. apply N.ltb_lt in Hc. apply negb_true_iff in Hk.
+      destruct ptr; (eexists; split; [reflexivity|]); cbv beta iota; try rewrite (check_code_self c _ Hc); cbn [jlookup bind];
+        rewrite Hk, String.eqb_refl; rewrite decode_encode_hex; cbn [bind]; rewrite fit_length; reflexivity.
     + destruct ptr; (eexists; split; [reflexivity|]); cbn [bind];
         rewrite decode_encode_hex; cbn [bind]; rewrite fit_length; reflexivity.
   - (* byte slice with an object code *)
-    intros v H. cbn [wf_schema] in Hwf. apply andb_prop in Hwf. destruct Hwf as [_ Hk]. apply negb_true_iff in Hk.
-    destruct v; try discriminate. eexists. split; [reflexivity|]. cbn [jdecode jlookup].
+    intros v H. cbn [wf_schema] in Hwf. apply andb_prop in Hwf. destruct Hwf as [Hc Hk]. apply N.ltb_lt in Hc.
+    apply negb_true_iff in Hk.
+    destruct v; try discriminate. eexists. split; [reflexivity|]. cbn [jdecode].
+    rewrite (check_code_self code _ Hc). cbn [jlookup].
     rewrite Hk, String.eqb_refl. rewrite decode_encode_hex. reflexivity.
 Qed.
 
